@@ -635,8 +635,10 @@ func c07Replay(c *h.Ctx) error {
 		}
 		c.Case(key)
 		perEntry[b.E]++
-		if hung > 20 {
-			return nil // too many leaked goroutines already; stop executing (reported below)
+		if hung > 0 {
+			// a call that did not return is still running in its goroutine (possibly allocating): every later
+			// measurement in this process would be polluted, so this shard stops executing here (the hang is reported)
+			return nil
 		}
 		runtime.ReadMemStats(&ms)
 		before := ms.TotalAlloc
